@@ -203,6 +203,16 @@ func (p c03) invalid(c *core.C, class, s string) {
 	if err := u.UnmarshalControl(s); err == nil {
 		c.Failf("UnmarshalControl(%q) accepted a string of the invalid class %q as %+v", s, class, u)
 	}
+	var u2 version.Version
+	if err := u2.UnmarshalText([]byte(s)); err == nil {
+		c.Failf("UnmarshalText(%q) accepted a string of the invalid class %q as %+v", s, class, u2)
+	}
+	if js, err := json.Marshal(s); err == nil {
+		var u3 version.Version
+		if err := json.Unmarshal(js, &u3); err == nil {
+			c.Failf("json.Unmarshal(%s) into a Version accepted a string of the invalid class %q as %+v", js, class, u3)
+		}
+	}
 }
 
 func (c03) roundtrip(c *core.C, s, source string) {
